@@ -226,11 +226,11 @@ def giant(seed):
     """One axis with thousands of members (beyond float / word / cache thresholds nobody would list), tiny or
     moderate lattices: 3200 x 3 and transposed; 150 x 3100 with ~150 concepts (for the generators)."""
     rng = random.Random(seed * 7 + 11)
-    n = 3200
+    n = 4400        # also beyond CPython's default 4300-digit limit for int <-> str conversion
     rows = [[1 + (i % 3)] + ([3] if i % 5 == 0 else []) for i in range(n)]
-    t = Table(n, 3, rows, 'giant3200x3')
+    t = Table(n, 3, rows, f'giant{n}x3')
     cols = [[i + 1 for i in range(n) if j in set(rows[i])] for j in range(1, 4)]
-    return [t, Table(3, n, cols, 'giant3x3200')]
+    return [t, Table(3, n, cols, f'giant3x{n}')]
 
 
 def giant_gen(seed):
@@ -247,6 +247,11 @@ def marathon(seed):
     rng = random.Random(seed * 3 + 2)
     rows = [[j for j in range(1, 13) if rng.random() < 0.55] for _ in range(40)]
     return [Table(40, 12, rows, 'marathon40x12')]
+
+
+def bigintent():
+    """A concept with a non-empty extent and an intent of 17 properties (2^17 candidate generating sets)."""
+    return [Table(3, 17, [list(range(1, 18)), list(range(1, 9)), [1, 2, 17]], 'bigintent3x17')]
 
 
 def biglat(seed, big=False):
